@@ -897,8 +897,13 @@ def replay_native(contract, case, model, post_name):
             for cls, when in cx.allowed_raises:
                 if isinstance(outcome.exc, cls) and _native_truth(when) is True:
                     ok = True
-            rep["reproduced"] = not ok
+            # the real run must fail the way the refuted path does: another exception type (typically the replay harness
+            # itself handing a contract stub to real code) reproduces nothing
+            same = type(outcome.exc).__name__ == post_name[len("no_raise["):-1]
+            rep["reproduced"] = (not ok) and same
             rep["observed"] = _describe_exc(outcome.exc)
+            if not same:
+                rep["note"] = "the native run raised a different exception type than the refuted path"
         else:
             rep["reproduced"] = False
         return rep
@@ -952,8 +957,13 @@ def replay_model(contract, case, zmodel, post_name):
             for cls, when in cx.allowed_raises:
                 if isinstance(outcome.exc, cls) and zeval(when if not isinstance(when, bool) else z3.BoolVal(when), zmodel) is True:
                     ok = True
-            rep["reproduced"] = not ok
+            # the real run must fail the way the refuted path does: another exception type (typically the replay harness
+            # itself handing a contract stub to real code) reproduces nothing
+            same = type(outcome.exc).__name__ == post_name[len("no_raise["):-1]
+            rep["reproduced"] = (not ok) and same
             rep["observed"] = _describe_exc(outcome.exc)
+            if not same:
+                rep["note"] = "the native run raised a different exception type than the refuted path"
         else:
             rep["reproduced"] = False
         return rep
